@@ -415,6 +415,8 @@ var fixedPool = []Val{
 	// children of scalar values and prototypes made by bear (objects, not scalars): equality laws only
 	{`"a".bear`, "", nil}, {`"a".bear({x: 1})`, "", nil}, {"Str.bear({x: 1})", "", nil}, {"PS", "", nil}, {"1.bear", "", nil}, {"Int.bear({x: 1})", "", nil}, {"PI", "", nil}, {"2.5.bear", "", nil}, {"PF", "", nil},
 	{"[1].bear", "", nil}, {"PA", "", nil}, {"nil.bear", "", nil}, {"true.bear", "", nil}, {"(1:2).bear", "", nil}, {"{|x| x}.bear", "", nil}, {"Int", "", nil}, {"Str", "", nil}, {"Float", "", nil}, {"Arr", "", nil}, {"Obj", "", nil},
+	{"(nil:3)", "", nil}, {"(PN.new:3)", "", nil}, {"(1:nil)", "", nil}, {"(1:PN.new)", "", nil}, {"(1:3:nil)", "", nil}, {"(1:3:PN.new)", "", nil}, {"[(PN.new:3)]", "", nil}, {"[(nil:3)]", "", nil},
+	{"%{[1]: 'a, [2]: 'b, [3]: 'c}", "", nil}, {"%{[2]: 'b, [1]: 'a, [3]: 'c}", "", nil}, {"%{[3]: 'c, [1]: 'a, [2]: 'b}", "", nil}, {"%{[1]: 'a, [2]: 'b, [3]: 'c, 1: 1}", "", nil}, {"%{{a: 1}: 1, [2]: 2, (1:2): 3, [[1]]: 4}", "", nil}, {"%{[[1]]: 4, (1:2): 3, [2]: 2, {a: 1}: 1}", "", nil},
 	{`PS.new("a")`, "str", nil}, {`PS.new("c")`, "str", nil}, {`PS.new("")`, "str", nil},
 	{"nil", "", nil}, {"PN.new", "", nil}, {"[]", "", nil}, {"[1]", "", nil}, {"[1, 2]", "", nil}, {"[2, 1]", "", nil}, {"[true]", "", nil}, {"[nil]", "", nil}, {"[[1], {a: [2]}]", "", nil}, {"[[1], {a: [3]}]", "", nil},
 	{"PA.new([1])", "", nil}, {"PA.new([1, 2])", "", nil}, {"PA.new([])", "", nil},
